@@ -203,3 +203,18 @@ package dispatcher
 //@   ensures[C13] e != nil && e.SourceId == sourceID && e.DestinationId == destID
 //@   ensures[C13] e.Count == cntOf(d, k)
 
+
+// The direct query returns the entry exactly when it is non-zero: a successful answer is the stored
+// entry of exactly the requested key and that entry is non-zero; "not found" is answered only when no
+// non-zero entry is recorded under the key (other errors are malformed requests).
+//@ macro qk(req) = quad4(protoByName(req.SourceProtocolId), req.SourceCounterpartyId, idstr(protoByName(req.DestinationProtocolId), req.DestinationCounterpartyId), req.Denom)
+//@ macro qIn(q, k) = val(amt_val[q.Dispatcher.dispatchedAmounts][k].Incoming)
+//@ macro qOut(q, k) = val(amt_val[q.Dispatcher.dispatchedAmounts][k].Outgoing)
+//@ macro qNonZero(q, k) = amt_has[q.Dispatcher.dispatchedAmounts][k] && (qIn(q, k) > 0 || qOut(q, k) > 0)
+//@ func (q queryServer) DispatchedAmounts(ctx, req) (resp, err)
+//@   requires[inv] q.Dispatcher != nil && amtWF(q.Dispatcher)
+//@   ensures[C13] err == nil ==> req != nil && resp != nil && len(resp.Amounts) == 1 && resp.Amounts[0] != nil && qNonZero(q, qk(req)) &&
+//@                  resp.Amounts[0].AmountDispatched == amt_val[q.Dispatcher.dispatchedAmounts][qk(req)] && resp.Amounts[0].Denom == req.Denom
+//@   ensures[C13] req != nil && req.Denom != "" && protoNameOK(req.SourceProtocolId) && protoNameOK(req.DestinationProtocolId) &&
+//@                vcc(mk("core.CrossChainID", protoByName(req.SourceProtocolId), req.SourceCounterpartyId)) &&
+//@                vcc(mk("core.CrossChainID", protoByName(req.DestinationProtocolId), req.DestinationCounterpartyId)) && qNonZero(q, qk(req)) ==> err == nil
